@@ -39,6 +39,11 @@ type metaDoc struct {
 	Syn       string             `json:"syn"`
 	Lbl       []string           `json:"lbl"`
 	Toks      []string           `json:"toks"`
+	Attrs     []struct {
+		K string `json:"k"`
+		V string `json:"v"`
+	} `json:"attrs"`
+	Single bool `json:"single"`
 }
 
 type metaVec struct {
@@ -390,6 +395,44 @@ func metadocsMain(args []string) int {
 		var past int
 		var lbl metaLabel
 		switch d.Kind {
+		case "tags":
+			// one <meta> with the abstract attribute list of MC_Meta's tags mode
+			var b strings.Builder
+			b.WriteString("<!DOCTYPE html><html><head><meta")
+			for _, a := range d.Attrs {
+				switch a.K {
+				case "charset":
+					b.WriteString(` charset="` + a.V + `"`)
+				case "http-equiv":
+					b.WriteString(` http-equiv="` + map[string]string{"content-type": "Content-Type", "other": "refresh"}[a.V] + `"`)
+				case "content":
+					if a.V == "" {
+						b.WriteString(` content="text/html"`)
+					} else {
+						b.WriteString(` content="text/html; charset=` + a.V + `"`)
+					}
+				default:
+					b.WriteString(` name="x"`)
+				}
+			}
+			b.WriteString(">")
+			past = b.Len()
+			b.WriteString("<title>t</title></head><body>x</body></html>")
+			doc = b.String()
+			lbl.Raw = v.Exp
+			if v.Exp == "" {
+				v.Exp = "utf-8" // no declaration: sniffed (the document is ASCII)
+			}
+			d.Lim = "default"
+			// the same bytes detected again and again must give the same answer (C04)
+			mimetype.SetLimit(3072)
+			first := mimetype.Detect(exact([]byte(doc))).String()
+			for r := 0; r < 5; r++ {
+				if again := mimetype.Detect(exact([]byte(doc))).String(); again != first {
+					rep.violate(mkViolation("C04", "repeated-detection-differs", []byte(doc), 3072, fmt.Sprintf("first %s, repetition %d %s", first, r+2, again)))
+					break
+				}
+			}
 		case "content":
 			var ok bool
 			doc, past, lbl.Raw, ok = renderContent(d)
@@ -450,7 +493,12 @@ func metadocsMain(args []string) int {
 		}
 		applicable++
 		if got := charsetOf(m); got != v.Exp {
-			rep.violate(mkViolation("C12", "declared-charset-"+d.Kind, raw, lim, fmt.Sprintf("declared %q, expected %q, reported %q", lbl.Raw, v.Exp, got)))
+			if d.Kind == "tags" && !d.Single {
+				// a tag that uses both mechanisms, or none: C12 does not speak about it; the model does
+				rep.drift(fmt.Sprintf("meta %v: model %q, reported %q", d.Attrs, v.Exp, got))
+			} else {
+				rep.violate(mkViolation("C12", "declared-charset-"+d.Kind, raw, lim, fmt.Sprintf("declared %q, expected %q, reported %q", lbl.Raw, v.Exp, got)))
+			}
 		}
 		if n%20011 == 1 {
 			rep.sample(map[string]any{"doc": doc, "limit": lim, "expected": v.Exp, "result": m.String()})
